@@ -25,7 +25,7 @@ REGENERATED from the source on every run (fail closed, ``Refuse`` on anything un
 
 SHAPE-PINNED (normalised-AST digest in translate/pins_session.json; hand-modelled in C16/Model.v):
 SoulSeekClient.login / stop / _on_server_reconnected, Network.disconnect /
-_server_connection_watchdog_job / get_listening_ports, DataConnection.disconnect / _send /
+_server_connection_watchdog_job / get_listening_ports, DataConnection.connect / disconnect / _send /
 _disconnect_detached, DistributedNetwork._notify_server_of_parent / _get_advertised_branch_values /
 stop, UserManager.track_user / track_friends / track_friend, UserTrackingManager._request_tracking /
 _on_state_changed / stop, BackgroundTask.start / cancel.
@@ -47,7 +47,7 @@ PINS = Path(__file__).with_name('pins_session.json')
 PINNED = [
     ('client.py', 'SoulSeekClient', ['login', 'stop', '_on_server_reconnected']),
     ('network/network.py', 'Network', ['disconnect', '_server_connection_watchdog_job', 'get_listening_ports']),
-    ('network/connection.py', 'DataConnection', ['disconnect', '_send', '_disconnect_detached']),
+    ('network/connection.py', 'DataConnection', ['connect', 'disconnect', '_send', '_disconnect_detached']),
     ('distributed.py', 'DistributedNetwork', ['_notify_server_of_parent', '_get_advertised_branch_values', 'stop',
                                               '_notify_children_of_branch_values', 'send_messages_to_children']),
     ('user/manager.py', 'UserManager', ['track_user', 'track_friends', 'track_friend']),
